@@ -954,6 +954,9 @@ class Lower:
                 return s, ("list", "N")
             if m == "len" and not args:
                 return f"{s}.length", "N"
+        if isinstance(t, tuple) and t[0] == "opt" and m == "unwrap_or" and len(args) == 1:
+            a, ta = self.ex(args[0], env, t[1] if t[1] in ("S", "N") else None)
+            return f"({s}.getD {a})", t[1]
         if isinstance(t, tuple) and t[0] == "opt" and m == "unwrap" and not args and self.cfg.get("unwrap_default"):
             # `unwrap` on an option the code's invariant makes `Some`: the model reads `default` otherwise
             return f"({s}.getD default)", t[1]
